@@ -111,6 +111,16 @@ void reb_verif_emit(const struct reb_simulation* const r, const char* event, int
     pthread_mutex_unlock(&reb_verif_mutex);
 }
 
+void reb_verif_yield(const char* site){
+    if (reb_verif_state!=1) return;
+    const char* y = getenv("REBOUND_VERIF_YIELD");
+    if (!y) return;
+    size_t n = strlen(site);
+    if (strncmp(y, site, n)==0 && y[n]==':'){
+        usleep((useconds_t)atol(y+n+1));
+    }
+}
+
 void reb_simulation_step(struct reb_simulation* const r){
     REB_VERIF(r, "step_b", 3, r->t, r->dt, (double)r->integrator);
     // Update walltime
@@ -726,16 +736,22 @@ int reb_check_exit(struct reb_simulation* const r, const double tmax, double* la
                         r->status = REB_STATUS_SUCCESS;
                     }else{
                         // not there yet, do another step.
+                        REB_VERIF(r, "ce_sync_b", 1, (double)r->steps_done);
                         reb_simulation_synchronize(r);
+                        REB_VERIF_YIELD("ce_sync");
                         r->dt = tmax-r->t;
+                        REB_VERIF(r, "ce_sync_e", 1, (double)r->steps_done);
                     }
                 }else{
                     r->status = REB_STATUS_LAST_STEP; // Do one small step, then exit.
+                    REB_VERIF(r, "ce_sync_b", 1, (double)r->steps_done);
                     reb_simulation_synchronize(r);
+                    REB_VERIF_YIELD("ce_sync");
                     if (r->dt_last_done!=0.){   // If first timestep is also last, do not use dt_last_done (which would be 0.)
                         *last_full_dt = r->dt_last_done; // store last full dt before decreasing the timestep to match finish time
                     }
                     r->dt = tmax-r->t;
+                    REB_VERIF(r, "ce_sync_e", 1, (double)r->steps_done);
                 }
             }else{
                 if (r->status == REB_STATUS_LAST_STEP){
@@ -889,6 +905,7 @@ static void* reb_simulation_integrate_raw(void* args){
             pthread_mutex_lock(&(r->server_data->mutex)); 
 #endif // _WIN32
             r->server_data->mutex_locked_by_integrate = 1;
+            REB_VERIF(r, "crit_b", 1, (double)r->steps_done);
         }
 #endif //SERVER
         if (r->simulationarchive_filename){ reb_simulationarchive_heartbeat(r);}
@@ -904,6 +921,7 @@ static void* reb_simulation_integrate_raw(void* args){
 #endif //OPENGL
 #ifdef SERVER
         if (r->server_data){
+            REB_VERIF(r, "crit_e", 1, (double)r->steps_done);
 #ifdef _WIN32
             ReleaseMutex(r->server_data->mutex);
 #else // _WIN32
@@ -916,10 +934,13 @@ static void* reb_simulation_integrate_raw(void* args){
             usleep(r->usleep);
         }
     }
+    REB_VERIF(r, "fin_sync_b", 1, (double)r->steps_done);
     reb_simulation_synchronize(r);
+    REB_VERIF_YIELD("fin_sync");
     if(r->exact_finish_time==1){ // if finish_time = 1, r->dt could have been shrunk, so set to the last full timestep
         r->dt = last_full_dt; 
     }
+    REB_VERIF(r, "fin_sync_e", 1, (double)r->steps_done);
     if (r->simulationarchive_filename){ reb_simulationarchive_heartbeat(r);}
     REB_VERIF(r, "int_end", 3, r->t, r->dt, (double)r->status);
 
